@@ -73,6 +73,15 @@ def snapshot(msg):
             for k, (l, v, lk) in enumerate(subs)]
 
 
+def shape_of(node):
+    """a nested-JSON subtree without its values"""
+    if isinstance(node, list):
+        return [shape_of(x) for x in node]
+    if isinstance(node, dict):
+        return {k: shape_of(v) for k, v in node.items() if k not in ('value', 'description')}
+    return None
+
+
 def features(msg):
     f = set()
     ids = msg.ids
@@ -185,7 +194,22 @@ def check_case(ctx, dec, enc, msg, origin, name=None, decc=None, Dtab=None):
                 break
         if ok_single:
             ctx.count('encode_joint_checked')
-            jb = enc.process(json.dumps(R.flat_json(msg))).serialized_bytes
+            jm_obj = enc.process(json.dumps(R.flat_json(msg)))
+            jb = jm_obj.serialized_bytes
+            # the encoder's own message object (wired by default) is a per-subset view too: same as decoding its bytes
+            try:
+                se, sd = snapshot(jm_obj), snapshot(dec.process(jb))
+                ctx.count('encoder_message_views_compared')
+                # (values are the user's inputs on the encoder side - str for bytes, ints for floats - so the nested views are
+                # compared by structure: ids, members, attribute placement)
+                if [x[0] for x in se] != [x[0] for x in sd] or [x[2] for x in se] != [x[2] for x in sd] or \
+                        [shape_of(x[3]) for x in se] != [shape_of(x[3]) for x in sd]:
+                    ctx.violate('encoder-message-view-differs-from-decode',
+                                'labels / links / nested view of the message object returned by the encoder differ from the decode of its own '
+                                'bytes; ops[%s]' % opsig(msg.ids), spec)
+            except Exception as e:
+                ctx.violate('encoder-message-view-raises:%s' % type(e).__name__, 'rendering the message object returned by the encoder raised %s'
+                            % type(e).__name__, spec, exc=e)
             if jb != msg.bytes:
                 ctx.violate('joint-encode-differs-from-alone',
                             'each subset encodes alone to the reference bytes but the joint encoding differs; '
